@@ -286,9 +286,7 @@ def r4_change(c, facts):
         c.bad(R, 'full-change-not-applied', 'a change without range no longer replaces the whole document')
     changes_in_order(c, facts, R)
     c16.run_units(c, facts, rule_prefix='C15.U', scope=['oal_client::lsp::Workspace::change', 'oal_client::lsp::unicode::position_to_utf8'],
-                  must=['oal_client::lsp::Workspace::change', 'oal_client::lsp::unicode::position_to_utf8'])
-    # floors of the shared units rule are sized for C16's scope: relax for this restricted scope
-    c.violations = [v for v in c.violations if not (v['key'].startswith('C15.U.') and ':floor:' in v['key'])]
+                  must=['oal_client::lsp::Workspace::change', 'oal_client::lsp::unicode::position_to_utf8'], floors=False)
 
 
 def r6_doc_sync(c, facts):
